@@ -5,6 +5,7 @@ CONSTANTS
   QueryClasses = {"Base","Mid","DA","DB1"}
   AllowClear = TRUE
   AllowRelate = FALSE
+  AllowQueryX = FALSE
   AllowSweep = FALSE
   Hist = TRUE
   PopIdOfNone = FALSE
